@@ -614,14 +614,51 @@ def register(M):
     def st_deref_any(st, v):
         return st.deref(v)
 
+    def own_copy(f):
+        """deepcopy of a callable: the same function (calls agree), marked as the holder's own copy (provenance used by own_copies)"""
+        if isinstance(f, SFun) and not getattr(f, 'copied', False):
+            d = {k2: v2 for k2, v2 in vars(f).items() if k2 != 'kind'}
+            d['copied'] = True
+            return SFun(f.kind, **d)
+        return f
+
     def deepcopy(args, kw, st, node):
         v = args[0]
         pv = st.deref(v)
+        if isinstance(pv, SFun):
+            return own_copy(pv)
+        if isinstance(pv, SList) and isinstance(pv.elem, TOpaque) and getattr(pv.elem, 'tag', '') == 'callable':
+            return st.alloc(SList(pv.n, lambda k: own_copy(pv.get(k)), pv.elem))
         if isinstance(pv, CONTAINERS):
             return st.alloc(pv)
         return pv
     E['copy.deepcopy'] = deepcopy
-    E['copy.copy'] = deepcopy
+
+    def shallow_copy(args, kw, st, node):
+        pv = st.deref(args[0])
+        if isinstance(pv, (SList, SDict)) and not (pv.elem if isinstance(pv, SList) else pv.vtype) in (None,) and \
+                isinstance((pv.elem if isinstance(pv, SList) else pv.vtype), (TArr, TList, TDict, TSet)):
+            raise Unsupported('copy.copy of a container of containers (elements stay shared)')
+        return deepcopy(args, kw, st, node) if not isinstance(pv, SFun) else pv
+    E['copy.copy'] = shallow_copy
+
+    def b_own_copies(args, kw, st, node):
+        """own_copies(L, original): every callable stored in L is the holder's own (deep) copy, or a module-level function that has no
+        state to share.  Provenance of the symbolic value, decided syntactically."""
+        L = st.deref(args[0])
+        if not isinstance(L, SList):
+            raise Unsupported('own_copies of %r' % (type(L),))
+        items = L.concrete_items()
+        elems = items if items is not None else [L.get(bvar('k'))]
+        for f in elems:
+            f = st.deref(f) if isinstance(f, Ref) else f
+            if isinstance(f, SFun) and (getattr(f, 'copied', False) or f.kind in ('repo', 'py', 'lambda')):
+                continue
+            if tag(f) in ('repo', 'builtin', 'ext'):       # a module-level function
+                continue
+            return False
+        return True
+    B['own_copies'] = b_own_copies
 
     # ---------------------------------------------------------------- array attributes & methods
     def arr_attr(a, base, attr, st):
